@@ -310,8 +310,14 @@ class SymNumpy(types.ModuleType):
     # constants that must stay identical
     inf = _np.inf
     nan = _np.nan
-    pi = _np.pi
     e = _np.e
+
+    @property
+    def pi(self):
+        c = _eng.CURRENT
+        if c is not None and getattr(c, "mode", "") == "sym" and c.aux.get("_symbolic_pi"):
+            return Sym(sym_pi())
+        return _np.pi
     newaxis = _np.newaxis
 
     exp = staticmethod(_un("exp", "exp", _np.exp))
@@ -498,6 +504,24 @@ class SymNumpy(types.ModuleType):
     def errstate(**k):
         return _np.errstate(**k)
 
+    @staticmethod
+    def arctan2(y, x):
+        if not (_has_sym(y) or _has_sym(x)):
+            return _np.arctan2(y, x)
+        return _map(_arctan2_1, y, x)
+
+    @staticmethod
+    def divide(a, b, *args, **k):
+        if not (_has_sym(a) or _has_sym(b)):
+            return _np.divide(a, b, *args, **k)
+        return _map(lambda p, q: p / q, a, b)
+
+    @staticmethod
+    def mod(a, b):
+        if not (_has_sym(a) or _has_sym(b)):
+            return _np.mod(a, b)
+        return _map(lambda p, q: p % q, a, b)
+
     @property
     def random(self):
         return symrandom
@@ -530,6 +554,58 @@ class SymNumpy(types.ModuleType):
         if a.shape != b.shape:
             return False
         return bool(_np.all(_tobool_array(_map(lambda x, y: x == y, a, b))))
+
+
+def sym_pi():
+    """pi as a symbolic constant with rational bounds (used when the harness enables it)."""
+    ctx = _eng.CURRENT
+    p = ctx.aux.get("_pi")
+    if p is None:
+        p = z3.Real("pi")
+        ctx.aux["_pi"] = p
+        ctx.add_hyp(z3.And(p > z3.RealVal("314159/100000"), p < z3.RealVal("314160/100000")))
+    return p
+
+
+def _arctan2_1(y, x):
+    """phi = arctan2(y, x) as a fresh value with ground axioms (and its differential)."""
+    ctx = _eng.CURRENT
+    ly, lx = lift(y), lift(x)
+    if isinstance(ly, float) or isinstance(lx, float):
+        raise Unsupported("arctan2 of non-finite values")
+    yt, xt = ly.nod().real(), lx.nod().real()
+    key = ("arctan2", yt.get_id(), xt.get_id())
+    got = ctx.aux.get(key)
+    if got is None:
+        k = len(ctx.aux)
+        phi = z3.Real(f"atan2!{k}")
+        rho = z3.Real(f"rho!{k}")
+        sin_f, cos_f = ctx.func("sin"), ctx.func("cos")
+        ctx.keep.extend([yt, xt])
+        PI_Q = sym_pi()
+        ctx.add_hyp(z3.And(phi > -PI_Q, phi <= PI_Q))
+        ctx.add_hyp(z3.And(rho >= 0, rho * rho == xt * xt + yt * yt))
+        ctx.add_hyp(z3.And(rho * cos_f(phi) == xt, rho * sin_f(phi) == yt))
+        ctx.add_hyp(cos_f(phi) * cos_f(phi) + sin_f(phi) * sin_f(phi) == 1)
+        ctx.add_hyp(z3.Implies(z3.And(xt == 0, yt == 0), phi == 0))
+        # (cos a, sin a) = (cos b, sin b)  =>  a - b in 2 pi Z, for every trig argument b seen so far
+        for kk, val in list(ctx.aux.items()):
+            if isinstance(kk, tuple) and kk and kk[0] == "trig":
+                b = val if not isinstance(val, bool) else None
+                if b is None:
+                    continue
+                ctx.add_hyp(z3.Implies(z3.And(cos_f(phi) == cos_f(b), sin_f(phi) == sin_f(b), b > -4 * PI_Q, b < 4 * PI_Q),
+                                       z3.Or(*[phi - b == 2 * j * PI_Q for j in (-2, -1, 0, 1, 2)])))
+        ctx.aux[key] = (phi, rho)
+        ctx.aux[("trig", phi.get_id())] = phi
+        got = (phi, rho)
+    phi, rho = got
+    r = Sym(phi)
+    if ly.d is not None or lx.d is not None:
+        from .values import _dz
+        x0, y0 = lx.nod(), ly.nod()
+        r.d = (x0 * _dz(ly) - y0 * _dz(lx)) / (x0 * x0 + y0 * y0)
+    return r
 
 
 def smax(a, b):
